@@ -210,6 +210,10 @@ func runAPICase(cs apiCase) apiOutcome {
 			return fail("membership-future-unresolved-after-commit", fmt.Sprintf("%s %s submitted to n%d committed (configuration %s) while n%d stayed leader, but its future never resolved", op.Kind, op.TargetID, op.Node, sim.CanonConfiguration(v.Committed), op.Node))
 		}
 	}
+	// ... and must not have been refused
+	if op := c.RefusedCommittedChange(); op != nil {
+		return fail("membership-future-refused-after-commit", fmt.Sprintf("%s %s submitted to the leader n%d resolved with %q although the change committed on n%d within the same term %d", op.Kind, op.TargetID, op.Node, op.Err, op.Node, op.SubTerm))
+	}
 	k := c.Key(nil)
 	return apiOutcome{Digest: fmt.Sprintf("%x", k[:8])}
 }
